@@ -42,6 +42,8 @@ FIXED_C01 = [
     (1, 32767, "pu_pu_po.po"),
     (2, 65534, "pu.pu.pu_po.po_po"),
     (2, 65534, "pun2.pun2_pon2_pon2"),
+    (1, 32767, "pu:100.pu:100_po:100.po:100"),      # spin waiters across the wrap
+    (2, 65534, "pun2:100.pu:100.pu:100_pon2:100_po:100.po:100"),
     # non-concurrent (CONCURRENT = false) try batches spanning the ring boundary while the other side is mid-operation
     (2, 0, "pu:011.pu:011.pu:011.tpun2:011_po.tpo_po.tpo"),
     (4, 0, "pun3:011.tpun3:011.tpun2:011_pon2.tpo_po.tpon2"),
@@ -63,6 +65,9 @@ FIXED_C02 = [
     (1, 32767, "pu.pu_po_po"),
     (1, 32767, "pu_pu_po.po"),
     (2, 65534, "pun2.pu.pu_pon2_po.po"),
+    (1, 32767, "pu:100.pu:100.pu:100_po:100.po:100.po:100"),   # spin waiters across the wrap
+    (1, 32767, "pu:100_pu:100_po:100.po:100"),
+    (2, 65534, "pun2:100.pun2:100_pon2:100.po:100.po:100"),
     (2, 0, "pu.pu_xpon2"),
     (4, 0, "pu.pu.pu_xpon2.xpon2"),
     (4, 0, "pun2.pu_xpon2.xpon1"),
